@@ -27,7 +27,8 @@ JudgeResp(q, resp) ==
 \* ---- C02 / C04: same answer from two servers (exact: address sets are complete, compare them too)
 Same(r1, r2, exact) ==
   /\ SameBut(r1, r2)
-  /\ exact => SetOf(r1.an) = SetOf(r2.an)
+  /\ exact => /\ SetOf(r1.an) = SetOf(r2.an)
+               /\ {<<x.n, x.t>> : x \in SetOf(r1.ex)} = {<<x.n, x.t>> : x \in SetOf(r2.ex)}
 
 \* ---- C03: a location lookup through the real reader
 JudgeLoc(q, o) ==
@@ -46,8 +47,17 @@ JudgeLoc(q, o) ==
 
 Report(b, v) == IF v = "ok" THEN TRUE ELSE PrintT(<<"REJECT", l, b, v>>)
 
+\* a response the specification rejects for the client's location but would accept had the server answered from a
+\* wrong set of records (tagged only / untagged only / all locations / another location) breaks C04's first sentence
+WrongView(q, resp) ==
+  /\ Judgeable(q)
+  /\ LET cl == ClientLoc(lines, q) IN
+     /\ \A L \in cl.locs : JudgeAt(recs, L, q, resp) # "ok"
+     /\ \E L \in cl.locs : \E V \in WrongViews(recs, L) : V # Visible(recs, L) /\ JudgeV(V, q, resp) = "ok"
+
 CheckQ(e) ==
   /\ \A b \in DOMAIN e.r : Report(b, JudgeResp(e.q, e.r[b]))
+  /\ \A b \in DOMAIN e.r : WrongView(e.q, e.r[b]) => PrintT(<<"REJECT", l, b, "C04:wrong-visibility">>)
   /\ \A b1, b2 \in DOMAIN e.r :
         (b1 # b2 /\ ~Same(e.r[b1], e.r[b2], e.q.exact)) => PrintT(<<"REJECT", l, b1, "C02:backends-differ", b2>>)
   /\ (e.q.cmp /\ e.qid \in DOMAIN memo) =>
